@@ -34,7 +34,10 @@ import (
 	"verifharness/internal/fix"
 )
 
-type mAttrValue struct{ Type, Value string }
+type mAttrValue struct {
+	Type, Value string
+	NameID      *mNameID // the optional NameID child of the AttributeValue
+}
 type mAttribute struct {
 	Friendly, Name, Format string
 	Values                 []mAttrValue
@@ -48,7 +51,12 @@ type mSession struct {
 }
 
 func (v mAttrValue) term() string {
-	return fmt.Sprintf("(Build_attrvalue %s %s)", emit.Str(v.Type), emit.Str(v.Value))
+	nid := "None"
+	if v.NameID != nil {
+		nid = fmt.Sprintf("(Some (Build_nameid %s %s %s %s))", emit.Str(v.NameID.Format), emit.Str(v.NameID.NameQualifier),
+			emit.Str(v.NameID.SPNameQualifier), emit.Str(v.NameID.Value))
+	}
+	return fmt.Sprintf("(Build_attrvalue %s %s %s)", emit.Str(v.Type), emit.Str(v.Value), nid)
 }
 func (a mAttribute) term() string {
 	var vs []string
@@ -231,7 +239,14 @@ func parseAssertionEl(el *etree.Element, problems *[]string) mAssertion {
 		for _, at := range ats.SelectElements("Attribute") {
 			ma := mAttribute{Friendly: attrOf(at, "FriendlyName"), Name: attrOf(at, "Name"), Format: attrOf(at, "NameFormat")}
 			for _, v := range at.SelectElements("AttributeValue") {
-				ma.Values = append(ma.Values, mAttrValue{Type: attrNS(v, "xsi", "type"), Value: v.Text()})
+				mv := mAttrValue{Type: attrNS(v, "xsi", "type"), Value: v.Text()}
+				if n := child(v, "NameID"); n != nil {
+					mv.NameID = &mNameID{attrOf(n, "Format"), attrOf(n, "NameQualifier"), attrOf(n, "SPNameQualifier"), textOf(n)}
+					if len(v.SelectElements("NameID")) != 1 || strings.TrimSpace(v.Tail()) != "" {
+						*problems = append(*problems, "AttributeValue with more than one NameID child")
+					}
+				}
+				ma.Values = append(ma.Values, mv)
 			}
 			a.Attributes = append(a.Attributes, ma)
 		}
